@@ -251,7 +251,14 @@ def _shapes_for(S: List[Shape], store_kind: str) -> List[Shape]:
     return [s for s in S if not any(st["k"] == "load" for f in s.funs for st in s.stmts[f])]
 
 
+def _tm(label: str, t0: float) -> None:
+    if os.environ.get("VERIF_TIMING"):
+        import sys
+        sys.stderr.write("[timing] %-40s %.1fs\n" % (label, time.time() - t0))
+
+
 def run_family(prop: str, tier: str) -> int:
+    T0 = time.time()
     fam = FAMILY[prop]
     rep = Report(prop, tier)
     evalfam.import_dds()
@@ -273,6 +280,7 @@ def run_family(prop: str, tier: str) -> int:
         trans += r.generated
     rep.cov["states"] = states
     rep.cov["transitions"] = trans
+    _tm("design runs", T0)
     # 2. histories, 3. replay, 4. oracle
     seed = common.seed()
     total = 0
@@ -285,13 +293,15 @@ def run_family(prop: str, tier: str) -> int:
     drift = 0
     for (vi, v) in enumerate(variants):
         placement = "cells" if v.get("cells") else ("script" if v.get("script") else "package")
-        key = (v["spec_store"], tuple(v["layouts"]), placement)
+        # the behaviours of the script placement are those of a one-module package (DdsEval.OnDisk)
+        key = (v["spec_store"], tuple(v["layouts"]), "package" if placement == "script" else placement)
         if key not in gens:
             vplans = [pl for pl in plans if "restart" not in pl] if v.get("cells") else plans
             (_, hs) = evalfam.tlc_generate(_shapes_for(S, v["spec_store"]), vplans, max_ver, v["spec_store"],
-                                           placement, v["layouts"], name="gen%d_" % vi, stages=stages,
+                                           key[2], v["layouts"], name="gen%d_" % vi, stages=stages,
                                            fail_classes=fails)
             gens[key] = hs
+            _tm("generated %s (%d histories)" % (key, len(hs)), T0)
         hs = gens[key]
         byname = {}
         for s in S:
@@ -340,6 +350,7 @@ def run_family(prop: str, tier: str) -> int:
             realisation += ",accept=%s+%d" % (v["accept"][0], len(v["accept"]) - 1)
             if len(v["accept"]) > 1 and not v["accept"][1].startswith("filler"):
                 realisation = realisation.rsplit(",", 1)[0] + ",accept=" + ">".join(v["accept"])
+        _tm("replayed variant %d (%d items)" % (vi, len(items)), T0)
         for ((shape, hist), obs) in zip(items, res):
             if obs is None:
                 continue
